@@ -25,6 +25,10 @@
                                      [L; dump c (L ints); dump d (L ints); bytes of d.serialize[_compressed]() ... ; -2; b ...];
                                      d is kept in the compact slot; [-1] for unordered after a rebuild
     15 rt_slot  [compressed]      -> the same fork applied to the compact slot c (a deserialized value): [-996] if none
+    17 deser_seed [seed; seed_hash; bytes...] -> deserialize_with_seed(bytes, seed) with an explicit reader seed (seed_hash = its
+                                     reference 16-bit seed hash, 0 for an unusable seed): ERR or the dump as for 12; fills the compact slot
+    18 try_build [seed; seed_hash] -> [1] if ThetaSketch::builder().seed(seed).build() returns, [0] if seed() panics (documented for
+                                     seeds whose seed hash is zero)
     16 bounds   []                -> the crate evaluates theta(), lower_bound / upper_bound (1, 2, 3 std devs) of the sketch and of
                                      compact(false) (ln/sqrt code: not mirrored; only a panic would show); [is_estimation_mode] *)
 From DS Require Import Base.Prelude Base.FloatBits Base.ThetaLib Base.BitExp Base.Oracles Model.Theta Model.ThetaCodec Spec.ThetaLayout.
@@ -35,6 +39,7 @@ Definition cfg_of (cfg : list Z) : tcfg :=
   mkCfg (zN (nth 0 cfg 0)) (zN (nth 1 cfg 0)) (nth 2 cfg 0) (zN (nth 4 cfg 0)).
 
 Definition fbits (f : float) : Z := bits_of_float f.
+Definition ONE_BITS_Z : Z := 0x3ff0000000000000.
 
 Definition ob_state (s : tsk) : list Z := [Nz (t_n s); Nz (t_theta s); Nz (t_lg_cur s)].
 
@@ -105,6 +110,12 @@ Definition step_codec (st : cstate) (o : zop) : option cstate * list Z :=
             end
           else (Some (s, None), [-1])
   | 16 => (Some st, [zbool (sk_is_estimation_mode s)])
+  | 17 => match c_deserialize (zN (nth 1 a 0)) (map zN (skipn 2 a)) with
+          | Ok c => (Some (s, Some c), ob_csk c)
+          | Err => (Some (s, None), ERR)
+          | Stuck => (None, PANIC)
+          end
+  | 18 => (Some st, [zbool (match sk_build (mkCfg 12 3 ONE_BITS_Z (zN (nth 1 a 0))) with Ok _ => true | _ => false end)])
   | 15 => let compressed := negb (nth 0 a 0 =? 0) in
           match slot with
           | None => (Some st, [-996])
@@ -255,7 +266,8 @@ Fixpoint track_from (chk : bool) (extra : list Z -> ospec -> Z -> list Z -> list
       | Some th0, 4%Z =>
           let k := 2 ^ lgk in
           let '(ok, st') := after_change lgk st ob in
-          Nat.eqb (length ob) 3 && (negb chk || (ok && (zget ob 0 =? N.min (o_cnt st) k))) && track_from chk extra cfg st' r obr
+          (* retained after trim = min(n, k): checked by every oracle built on the tracker (C04 and C18) *)
+          Nat.eqb (length ob) 3 && (zget ob 0 =? N.min (o_cnt st) k) && (negb chk || ok) && track_from chk extra cfg st' r obr
       | Some th0, 5%Z =>
           Nat.eqb (length ob) 3 && (negb chk || ((zget ob 0 =? 0) && (zget ob 1 =? th0)))
           && track_from chk extra cfg (mkO (Some th0) th0 hs_empty 0 hs_empty 0 false) r obr
@@ -406,7 +418,7 @@ Fixpoint foreign_from (sh : N) (cur : option tabs) (ops : list zop) (obs : list 
              end
          | None => true
          end) && foreign_from sh cur r obr
-      else if (code =? 14)%Z then foreign_from sh None r obr
+      else if (code =? 14)%Z || (code =? 17)%Z then foreign_from sh None r obr
       else foreign_from sh cur r obr
   | [], _ :: _ => false
   | _, [] => true
@@ -426,7 +438,11 @@ Definition ok_dump_wf (ob : list Z) : bool :=
 Fixpoint wf_from (ops : list zop) (obs : list (list Z)) : bool :=
   match ops, obs with
   | (code, a) :: r, ob :: obr =>
-      (if (code =? 12)%Z && (nth 0 ob 0 =? 1)%Z then ok_dump_wf ob else true) && wf_from r obr
+      (if ((code =? 12)%Z || (code =? 17)%Z) && (nth 0 ob 0 =? 1)%Z then ok_dump_wf ob else true)
+      (* a reader seed whose seed hash is zero must be answered with Err; the builder must refuse exactly those seeds *)
+      && (if (code =? 17)%Z && (nth 1 a 0 =? 0)%Z then list_eqb Z.eqb ob ERR else true)
+      && (if (code =? 18)%Z then list_eqb Z.eqb ob [zbool (negb (nth 1 a 0 =? 0)%Z)] else true)
+      && wf_from r obr
   | [], _ :: _ => false
   | _, [] => true
   end.
